@@ -1,6 +1,6 @@
 #!/bin/bash
-# Run (part of) the repository test suite. The suite binds fixed TCP ports, so only one pytest may run at a
-# time on this machine: serialised through a lock file.  usage: repo_tests.sh <repo_dir> [pytest args...]
+# Run (part of) the repository test suite in a private network namespace (the suite binds fixed TCP ports; a private
+# loopback lets several runs proceed in parallel).  usage: repo_tests.sh <repo_dir> [pytest args...]
 REPO=${1:-/repo}; shift
 cd "$REPO" || exit 2
-exec flock /var/tmp/pynetdicom-pytest.lock /venv/bin/python -m pytest -q -p no:cacheprovider --timeout=900 "$@"
+exec unshare -rn bash -c 'ip link set lo up; exec /venv/bin/python -m pytest -q -p no:cacheprovider --timeout=900 "$@"' _ "$@"
